@@ -1908,6 +1908,7 @@ private:
     {
         if (secondDone)
         {
+            rem.reduce(); // the division below compares lengths: strip the zero words the subtraction left
             rem /= max_word;
         }
         if ( x > 0 )
